@@ -396,7 +396,7 @@ PROPS['C15']['bounds_text'] += '; side B zoo: declarations next to an injector (
 PROPS['C15']['outside'] = 'declaration forms beyond the zoo; comments/positions after gofmt; ast.File / ast.Package never reach copyAST; Ident.Obj (resolver link) is not syntax'
 PROPS['C16']['quick'] = PROPS['C16']['quick'] + [sideb(['kinds', 'naming', 'values', 'frontend', 'packages'], determinism=True)]
 PROPS['C16']['thorough'] = PROPS['C16']['thorough'] + [sideb(['chains3', 'kinds', 'naming', 'values', 'frontend', 'packages', 'grouping'], determinism=True)]
-PROPS['C16']['bounds_text'] += '; supplement (enumerated runs, not solver-decided): for the side-B corpus, a repeated run, and a run in a copy of the module at another location started from a package directory with per-package relative patterns, and a run in GOPATH mode (GO111MODULE=off) with github.com/google/wire and two external provider modules resolved from a vendor directory, must give byte-identical files free of absolute paths'
+PROPS['C16']['bounds_text'] += '; supplement (enumerated runs, not solver-decided): for the side-B corpus, a repeated run, every package generated alone, and a run in a copy of the module at another location started from a package directory with per-package relative patterns, and a run in GOPATH mode (GO111MODULE=off) with github.com/google/wire and two external provider modules resolved from a vendor directory, must give byte-identical files free of absolute paths'
 PROPS['C16']['outside'] = 'beyond the runs of the supplement: other GOPATH / vendor layouts, co-processing with arbitrary other packages'
 
 # skeletons added after the seeded changes S08 (inline sets) and S10 (binding to a field-provided type in the same set)
@@ -490,3 +490,6 @@ PROPS['C06']['seeded_extra'] = _seeded_solve(0, 2)
 PROPS['C08']['seeded_extra'] = _seeded_solve(1, 1)
 PROPS['C10']['seeded_extra'] = _seeded_solve(1, 0)
 PROPS['C11']['seeded_extra'] = _seeded_solve(1, 1)
+
+PROPS['C02']['bounds_text'] += '; side B: every DAG over <=3 function providers x flags, kinds / packages / frontend / random (seeded) families executed under all fault schedules'
+PROPS['C10']['bounds_text'] += '; side B: grouping, kinds, packages, frontend and random families must be accepted'
